@@ -183,6 +183,20 @@ impl<'a> Ctx<'a> {
             let got = self.apply(&mut nb, &op, &kind);
             if got["ok"] != want["ok"] || (want["err"] == "panic") != (got["err"] == "panic") {
                 self.mismatch(path, "C11", format!("result {got}, specification {want}"));
+                // an operation the rules refuse was carried out: is what the builder serialises now still a message the parser
+                // reads back (C03 speaks about whatever the builder serialises)?
+                if got["ok"] == true {
+                    let parsed_back = catch_unwind(AssertUnwindSafe(|| {
+                        let bytes = nb.build();
+                        match Message::from_bytes(&bytes) {
+                            Err(e) => Some(format!("{e:?}")),
+                            Ok(_) => None,
+                        }
+                    }));
+                    if let Ok(Some(e)) = parsed_back {
+                        self.mismatch(path, "C03", format!("after an operation that should have been refused the builder serialises a message the parser rejects: {e}"));
+                    }
+                }
                 path.pop();
                 continue;
             } else if got != want {
